@@ -71,15 +71,18 @@ func (x sp) drawContRepr() int {
 	switch {
 	case g <= 2, g <= 5 && !x.structs:
 		return drawHigh(t, false) &^ boxBit
+	case g == 9:
+		// an interface-keyed map
+		return 1 + 8*rapid.IntRange(0, 1).Draw(t, "named") | drawHigh(t, false)&^boxBit | drawNames(t)
 	case g <= 8:
 		return drawStructRepr(t)
 	}
-	return rapid.IntRange(0, 63).Draw(t, "repr") | drawHigh(t, false)
+	return rapid.IntRange(0, 63).Draw(t, "repr") | drawHigh(t, false) | drawNames(t)
 }
 
 func drawStructRepr(t *rapid.T) int {
 	// (typed fields and pointer levels multiply the length of the type names, which reflect keeps for ever)
-	return rapid.SampledFrom([]int{2, 7, 2, 10, 7, 15}).Draw(t, "struct") + 16*rapid.SampledFrom([]int{0, 0, 2, 0, 3}).Draw(t, "ptr") + 64*drawLayout(t) + drawHigh(t, true)&^boxBit
+	return rapid.SampledFrom([]int{2, 7, 2, 10, 7, 15}).Draw(t, "struct") + 16*rapid.SampledFrom([]int{0, 0, 2, 0, 3}).Draw(t, "ptr") + 64*drawLayout(t) + drawHigh(t, true)&^boxBit | drawNames(t)
 }
 
 // drawLayout draws the layout bits of a struct representation (see layoutOf).
@@ -332,7 +335,7 @@ func respellIndex(t *rapid.T, l []string, sep string) ([]string, bool) {
 	return out, out[i] != l[i]
 }
 
-const plantSameKey = "same key twice in one object (struct fields / inline members)"
+const plantSameKey = "same key twice in one object (struct fields / inline members / interface-keyed map with keys of different dynamic types)"
 
 func otherPrim(t *rapid.T) *gen.Tree {
 	p := rapid.SampledFrom([]*gen.Tree{gen.Uint(1), gen.Uint(77), gen.Int(-5), gen.Str("dup"), gen.Str(""), gen.Bool(false), gen.Bool(true), gen.Float(2.5), gen.Uint(0)}).Draw(t, "dupval")
@@ -392,7 +395,8 @@ func (x sp) plantSame(f *gen.Tree) bool {
 	var nodes, cands []*gen.Tree
 	preorder(f, &nodes)
 	for _, n := range nodes {
-		if n.K == "obj" && len(n.Keys) > 0 && structable(n) {
+		if n.K == "obj" && len(n.Keys) > 0 {
+			// (an object with a key that no struct tag can carry is written as an interface-keyed map)
 			cands = append(cands, n)
 		}
 	}
@@ -427,7 +431,12 @@ func (x sp) plantSame(f *gen.Tree) bool {
 	at := rapid.IntRange(0, len(n.Keys)).Draw(t, "same-at")
 	n.Keys = append(n.Keys[:at:at], append([]string{n.Keys[i]}, n.Keys[at:]...)...)
 	n.Vals = append(n.Vals[:at:at], append([]*gen.Tree{v}, n.Vals[at:]...)...)
-	n.R = drawStructRepr(t)
+	if !structable(n) || rapid.IntRange(0, 2).Draw(t, "same-as-map") == 0 {
+		// two keys of different dynamic types in an interface-keyed map
+		n.R = 1 + 8*rapid.IntRange(0, 1).Draw(t, "named") | drawHigh(t, false)&^boxBit | drawNames(t)
+	} else {
+		n.R = drawStructRepr(t)
+	}
 	return true
 }
 
@@ -437,7 +446,7 @@ func genFlat(t *rapid.T, plant bool) FlatCase {
 
 func genFlatWith(t *rapid.T, o OptSet, plant, structs bool) FlatCase {
 	c := FlatCase{O: o, Scheme: rapid.IntRange(0, nSchemes-1).Draw(t, "scheme")}
-	cfg := &gen.TreeCfg{Depth: 3, Width: 3, Keys: append(keysFor(c.O, flatKeys), drawOdd(t, c.O)...), Strings: gen.HostileStrings, Reprs: true}
+	cfg := &gen.TreeCfg{Depth: 3, Width: 3, Keys: append(append(keysFor(c.O, flatKeys), drawOdd(t, c.O)...), drawUni(t, c.O)...), Strings: gen.HostileStrings, Reprs: true}
 	if runlog.Thorough() {
 		cfg.Depth, cfg.Width = 4, 4
 	}
